@@ -109,7 +109,8 @@ def gen_node(r, names, depth):
     if item is not None and item == index:
         index = None
     lst = r.choice(["l", "o", "s", "n", "m", "o.q", "c ? l : o", "l[0].r", "d || l", "u", "q"] + [x + ".r" for x in names])
-    return ("for", ("e", lst), item, index, gen_carrier(r, names + [item or "item", index or "index"], depth))
+    key = r.choice([None, None, "k", "p", "*this"])
+    return ("for", ("e", lst), item, index, gen_carrier(r, names + [item or "item", index or "index"], depth), key)
 
 
 # ---------------------------------------------------------------------------------------------
@@ -154,6 +155,8 @@ def wx_node(n):
             extra += ' wx:for-item="%s"' % n[2]
         if n[3] is not None:
             extra += ' wx:for-index="%s"' % n[3]
+        if len(n) > 5 and n[5] is not None:
+            extra += ' wx:key="%s"' % n[5]
         return wx_carrier(n[4], extra)
     raise ValueError(k)
 
@@ -187,6 +190,8 @@ def sx_node(n):
             parts.append("(else %s)" % sx_carrier_nodes(n[2]))
         return "(cond %s)" % " ".join(parts)
     if k == "for":
+        if len(n) > 5 and n[5] is not None:
+            return "(forkey %s %s %s %s %s)" % (sx_value(n[1]), q(n[5]), q(n[2] or "item"), q(n[3] or "index"), sx_carrier_nodes(n[4]))
         return "(for %s %s %s %s)" % (sx_value(n[1]), q(n[2] or "item"), q(n[3] or "index"), sx_carrier_nodes(n[4]))
     raise ValueError(k)
 
@@ -269,7 +274,7 @@ def print_real(tree, born):
             items = []
             for i, c in enumerate(o.get("children", [])):
                 items.append("M%d@%s(%s)" % (born[c["n"]], jval(idx[i]) if idx is not None else str(i), " ".join(node(x) for x in c.get("children", []))))
-            return "F%d(%s)" % (b, " ".join(items))
+            return "F%d[%s](%s)" % (b, ",".join(jstr(k) for k in o.get("keys", []) if k is not None), " ".join(items))
         raise ValueError(kind)
     return "V0(%s)" % " ".join(node(c) for c in tree)
 
@@ -347,9 +352,9 @@ def directed_cases():
              [D0, dict(D0, l={"a": {"p": 1, "r": [1]}}), dict(D0, l="ab"), dict(D0, l=2)]]
     bodies = [[T("item")], [T("index")], [("elem", "view", [("title", ("e", "item.p"))], [T("item.p")])],
               [("for", ("e", "item.r"), "it", "ix", ("block", [T("it + index")]))], [("cond", [(("e", "item.p === 1"), ("block", [T("item.p")]))], ("block", [T("index")]))]]
-    for lst in ("m", "l"):
+    for lst, key in (("m", None), ("l", None), ("l", "p"), ("m", "*this"), ("l", "k")):
         for body in bodies:
-            nodes = [("for", ("e", lst), None, None, ("block", body)), ("cond", [(("e", "c === 1"), ("block", [T("c")])), (("e", "c"), ("elem", "v", [], [T("n")]))], None)]
+            nodes = [("for", ("e", lst), None, None, ("block", body), key), ("cond", [(("e", "c === 1"), ("block", [T("c")])), (("e", "c"), ("elem", "v", [], [T("n")]))], None)]
             for h in hists:
                 steps = [{"create": h[0]}]
                 for a, b in zip(h, h[1:]):
@@ -407,7 +412,9 @@ def stream(chk, rng, count):
             for n in all_ids(snap["tree"], []):
                 born.setdefault(n, k)
             texts.append(print_real(snap["tree"], born))
-        dreqs.append(core.req("tagsem", "(tmpl %s)" % " ".join(sx_node(n) for n in nodes), *[sx_data(D) for D in hist]))
+        # (a step whose whole data tree is `true` is marked: the generated code then hands every list the tree `undefined`)
+        marks = [""] + [("!" if st.get("U") is True else "") for st in steps[1:]]
+        dreqs.append(core.req("tagsem", "(tmpl %s)" % " ".join(sx_node(n) for n in nodes), *[m + sx_data(D) for m, D in zip(marks, hist)]))
         real.append("\t".join(core.esc(t) for t in texts))
     if not dreqs:
         return 0
